@@ -118,6 +118,9 @@ class TriggerHandler:
         """
         self.__old_thread_trace = None
         self.__old_sys_trace = None
+        # what each thread that has started us had as its own trace function before (sys.settrace is per thread). One
+        # object for our whole life: a restart from another thread must not take away what the first thread is owed. Not
+        # keyed by the ident of the thread: the ident of a thread that has ended is given to the next thread created.
         self.__start_thread = threading.local()
         self.__hooks_installed = False
         self.__shutdown = False
@@ -134,19 +137,44 @@ class TriggerHandler:
         # so we allow the settrace to be disabled, so we can at least debug around it
         if self._config.NO_TRACE:
             return
-        # marks the thread that starts us. Not by its ident: the ident of a thread that has ended is given to the next
-        # thread created, which would be taken for the starting thread (and given its trace function)
-        self.__start_thread = threading.local()
-        self.__start_thread.mine = True
         # remembered here: this is looked at on every trace event after shutdown, where we must not go through the
         # config (an unknown key is logged, and we may be called from inside the logging module)
         self.__hooks_installed = True
-        self.__old_sys_trace = sys.gettrace()
-        # gettrace was added in 3.10, so use it if we can, else try to get from property
-        # noinspection PyUnresolvedReferences,PyProtectedMember
-        self.__old_thread_trace = threading.gettrace() if hasattr(threading, 'gettrace') else threading._trace_hook
+        # What is there now is what we put back. Unless it is our own function: we are started again while we are
+        # still installed (a restart from inside a function with pending work, or by another thread) - then what we
+        # remembered the first time is still what we owe.
+        current = sys.gettrace()
+        if current != self.trace_call:
+            self.__start_thread.old = current
+        current = self.__thread_hook()
+        if current != self.trace_call:
+            self.__old_thread_trace = current
         sys.settrace(self.trace_call)
         threading.settrace(self.trace_call)
+
+    @staticmethod
+    def __thread_hook():
+        # gettrace was added in 3.10, so use it if we can, else try to get from property
+        # noinspection PyUnresolvedReferences,PyProtectedMember
+        return threading.gettrace() if hasattr(threading, 'gettrace') else threading._trace_hook
+
+    def __put_back(self, remembered, for_new_threads: bool = False):
+        """
+        Get the function to put back for one we have remembered.
+
+        It can be the function of another agent that was live when we started, and has been shut down since: what
+        it had remembered is put back in its place.
+        """
+        seen = 0
+        while isinstance(getattr(remembered, '__self__', None), TriggerHandler) and remembered.__self__.__shutdown \
+                and seen < 8:
+            other = remembered.__self__
+            if for_new_threads or not hasattr(other.__start_thread, 'old'):
+                remembered = other.__old_thread_trace
+            else:
+                remembered = other.__start_thread.old
+            seen += 1
+        return remembered
 
     def new_config(self, new_config: List['Trigger']):
         """
@@ -217,8 +245,13 @@ class TriggerHandler:
         """
         try:
             if self.__hooks_installed and sys.gettrace() == self.trace_call:
-                mine = getattr(self.__start_thread, 'mine', False)
-                sys.settrace(self.__old_sys_trace if mine else self.__old_thread_trace)
+                if hasattr(self.__start_thread, 'old'):
+                    # a thread that has started us: its own function from before
+                    remembered = self.__start_thread.old
+                    del self.__start_thread.old
+                else:
+                    remembered = self.__old_thread_trace
+                sys.settrace(self.__put_back(remembered))
         except BaseException:
             pass
         return None
@@ -370,10 +403,13 @@ class TriggerHandler:
         if self._config.NO_TRACE:
             # we never installed our hooks, so there is nothing of ours to remove
             return
-        if getattr(self.__start_thread, 'mine', False) and not self._callbacks.is_set:
-            sys.settrace(self.__old_sys_trace)
+        if hasattr(self.__start_thread, 'old') and sys.gettrace() == self.trace_call and not self._callbacks.is_set:
+            sys.settrace(self.__put_back(self.__start_thread.old))
+            del self.__start_thread.old
         # else: the function of the calling thread is not ours to replace; the starting thread removes us itself, at
         # its next trace event (see __leave_thread). So does the calling thread when it is the starting thread but
         # has work pending (shutdown called from inside a function with a span or a deferred snapshot): without our
         # function the event that completes the work would never reach us
-        threading.settrace(self.__old_thread_trace)
+        # (only what is ours is replaced: another agent started after us may have its function there by now)
+        if self.__thread_hook() == self.trace_call:
+            threading.settrace(self.__put_back(self.__old_thread_trace, for_new_threads=True))
